@@ -344,12 +344,18 @@ def outConv (p : Nat) (a : Poly) : Except Err Nat :=
 
 /-! ### threshold ≙ runtime.py:5199-5201 -/
 
-/-- `options.threshold` (None ≙ `none`) and m -> threshold or AssertionError -/
+/-- the setter of `Runtime.threshold` (repo fix `assigning mpc.threshold validates 0 <= 2t < m`): ValueError unless
+0 ≤ 2t < m -/
+def setThreshold (m t : Int) : Except Err Int :=
+  if 0 ≤ 2 * t ∧ 2 * t < m then .ok t else .error .valueError
+
+/-- `options.threshold` (None ≙ `none`) and m -> threshold, AssertionError (the assert of `setup()` for 2t ≥ m) or ValueError
+(the setter, called by `Runtime.__init__`, for negative t) -/
 def setupThreshold (m : Int) (t : Option Int) : Except Err Int :=
   let t := match t with
     | none => (m - 1) / 2       -- Int floor division ≙ `//` for the positive divisor 2
     | some t => t
-  if 2 * t < m then .ok t else .error .assertionError
+  if 2 * t < m then setThreshold m t else .error .assertionError
 
 /-! ### `_pfield` ≙ sectypes.py:673-682 -/
 
